@@ -2,7 +2,10 @@
 # usage: tools/seed_pipeline.sh C13 [tier] [props]  -- intake + verify + detect for what a sub-agent left in /tmp/seed/<ID>/out
 id="$1"; tier="${2:-quick}"; props="${3:-own}"; round="${4:-1}"
 cd /verif
-if [ "$round" = 7 ]; then
+if [ "$round" = 8 ]; then
+  /venv/bin/python tools/seeded.py intake "$id" --out out8 --offset 14 || exit 1
+  dirs="seeded/$id-15 seeded/$id-16"
+elif [ "$round" = 7 ]; then
   /venv/bin/python tools/seeded.py intake "$id" --out out7 --offset 12 || exit 1
   dirs="seeded/$id-13 seeded/$id-14"
 elif [ "$round" = 6 ]; then
